@@ -1,4 +1,375 @@
-//! entry-point / layout / plumbing scenarios (filled in below)
-pub fn dispatch(cmd: &str, _args: &[String], _line: &str) {
-    eprintln!("unknown scenario command {cmd}");
+//! entry-point / layout / buffer / custom-strategy scenarios: relational facts decided by node identity
+//! ("same node" = same operation sequence on the same operands = bit-identical for every input value).
+#![allow(clippy::too_many_arguments)]
+use std::cell::{Cell, RefCell};
+use std::panic::{catch_unwind, AssertUnwindSafe};
+
+use ndarray::{
+    Array, Array1, ArrayBase, ArrayD, ArrayViewMut, Axis, Data, Dimension, Ix0, Ix1, Ix2, Ix3, Ix4, Ix5, IxDyn, OwnedRepr, RemoveAxis, ShapeBuilder, Slice,
+};
+use ndarray_interp::interp1d::cubic_spline::CubicSpline;
+use ndarray_interp::interp1d::{Interp1D, Interp1DBuilder, Interp1DStrategy, Interp1DStrategyBuilder, Linear};
+use ndarray_interp::interp2d::{Bilinear, Interp2D, Interp2DBuilder, Interp2DStrategy, Interp2DStrategyBuilder};
+use ndarray_interp::{BuilderError, InterpolateError};
+
+use crate::sym::*;
+use crate::{axis, json_escape};
+
+pub struct Check { pub name: String, pub ok: bool, pub detail: String }
+fn ck(v: &mut Vec<Check>, name: String, ok: bool, detail: String) { v.push(Check { name, ok, detail }); }
+
+fn emit(scn: &str, result: &str, checks: &[Check]) {
+    let mut s = format!("{{\"scenario\":\"{}\",\"result\":\"{}\",\"checks\":[", json_escape(scn), json_escape(result));
+    for (i, c) in checks.iter().enumerate() {
+        if i > 0 { s.push(','); }
+        s.push_str(&format!("{{\"name\":\"{}\",\"ok\":{},\"detail\":\"{}\"}}", json_escape(&c.name), c.ok, json_escape(&c.detail)));
+    }
+    s.push_str("]}");
+    println!("{}", s);
 }
+
+pub fn sym_array(prefix: &str, shape: &[usize], lo: f64, hi: f64) -> ArrayD<Sym> {
+    let total: usize = shape.iter().product();
+    let v: Vec<Sym> = (0..total).map(|i| var(&format!("{prefix}{i}"), lo + (hi - lo) * (((i * 37 + 11) % 97) as f64 / 97.0))).collect();
+    ArrayD::from_shape_vec(IxDyn(shape), v).unwrap()
+}
+fn ids<D: Dimension>(a: &Array<Sym, D>) -> Vec<u32> { a.iter().map(|s| s.0).collect() }
+fn ids_v<S: Data<Elem = Sym>, D: Dimension>(a: &ArrayBase<S, D>) -> Vec<u32> { a.iter().map(|s| s.0).collect() }
+
+// ------------------------------------------------------------------------------------------------
+// recording / failing custom strategies
+// ------------------------------------------------------------------------------------------------
+thread_local! {
+    pub static LOG: RefCell<Vec<(u32, u32, Vec<usize>)>> = RefCell::new(Vec::new());   // (x node, y node, target shape)
+    pub static BUILD_LOG: RefCell<Vec<String>> = RefCell::new(Vec::new());
+    pub static FAIL_AT: Cell<Option<usize>> = Cell::new(None);
+    pub static FAIL_BUILD: Cell<bool> = Cell::new(false);
+    pub static CALLS: Cell<usize> = Cell::new(0);
+}
+pub struct Rec<const MIN: usize>;
+
+fn axis_ok<S: Data<Elem = Sym>>(x: &ArrayBase<S, Ix1>) -> bool {
+    x.len() >= 2 && x.iter().zip(x.iter().skip(1)).all(|(a, b)| shadow(*a) < shadow(*b))
+}
+impl<Sd, Sx, D, const MIN: usize> Interp1DStrategyBuilder<Sd, Sx, D> for Rec<MIN>
+where Sd: Data<Elem = Sym>, Sx: Data<Elem = Sym>, D: Dimension + RemoveAxis {
+    const MINIMUM_DATA_LENGHT: usize = MIN;
+    type FinishedStrat = Rec<MIN>;
+    fn build<Sx2>(self, x: &ArrayBase<Sx2, Ix1>, data: &ArrayBase<Sd, D>) -> Result<Rec<MIN>, BuilderError> where Sx2: Data<Elem = Sym> {
+        let ok = data.ndim() >= 1 && x.len() == data.shape()[0] && data.shape()[0] >= MIN && axis_ok(x);
+        BUILD_LOG.with(|l| l.borrow_mut().push(format!("build1d guarantees_hold={ok} xlen={} shape={:?} min={MIN}", x.len(), data.shape())));
+        if FAIL_BUILD.with(|f| f.get()) { return Err(BuilderError::ValueError("injected-build-error".into())); }
+        Ok(self)
+    }
+}
+impl<Sd, Sx, D, const MIN: usize> Interp1DStrategy<Sd, Sx, D> for Rec<MIN>
+where Sd: Data<Elem = Sym>, Sx: Data<Elem = Sym>, D: Dimension + RemoveAxis {
+    fn interp_into(&self, _i: &Interp1D<Sd, Sx, D, Self>, mut target: ArrayViewMut<'_, Sym, D::Smaller>, x: Sym) -> Result<(), InterpolateError> {
+        let k = CALLS.with(|c| { let k = c.get(); c.set(k + 1); k });
+        LOG.with(|l| l.borrow_mut().push((x.0, u32::MAX, target.shape().to_vec())));
+        if FAIL_AT.with(|f| f.get()) == Some(k) { return Err(InterpolateError::OutOfBounds(format!("injected-{k}"))); }
+        for (l, t) in target.iter_mut().enumerate() { *t = x + konst_frac(l as i128, 1); }
+        Ok(())
+    }
+}
+impl<Sd, Sx, Sy, D, const MIN: usize> Interp2DStrategyBuilder<Sd, Sx, Sy, D> for Rec<MIN>
+where Sd: Data<Elem = Sym>, Sx: Data<Elem = Sym>, Sy: Data<Elem = Sym>, D: Dimension + RemoveAxis, D::Smaller: RemoveAxis {
+    const MINIMUM_DATA_LENGHT: usize = MIN;
+    type FinishedStrat = Rec<MIN>;
+    fn build(self, x: &ArrayBase<Sx, Ix1>, y: &ArrayBase<Sy, Ix1>, data: &ArrayBase<Sd, D>) -> Result<Rec<MIN>, BuilderError> {
+        let ok = data.ndim() >= 2 && x.len() == data.shape()[0] && y.len() == data.shape()[1] && data.shape()[0] >= MIN && data.shape()[1] >= MIN && axis_ok(x) && axis_ok(y);
+        BUILD_LOG.with(|l| l.borrow_mut().push(format!("build2d guarantees_hold={ok} xlen={} ylen={} shape={:?} min={MIN}", x.len(), y.len(), data.shape())));
+        if FAIL_BUILD.with(|f| f.get()) { return Err(BuilderError::ValueError("injected-build-error".into())); }
+        Ok(self)
+    }
+}
+impl<Sd, Sx, Sy, D, const MIN: usize> Interp2DStrategy<Sd, Sx, Sy, D> for Rec<MIN>
+where Sd: Data<Elem = Sym>, Sx: Data<Elem = Sym>, Sy: Data<Elem = Sym>, D: Dimension + RemoveAxis, D::Smaller: RemoveAxis {
+    fn interp_into(&self, _i: &Interp2D<Sd, Sx, Sy, D, Self>, mut target: ArrayViewMut<'_, Sym, <D::Smaller as Dimension>::Smaller>, x: Sym, y: Sym) -> Result<(), InterpolateError> {
+        let k = CALLS.with(|c| { let k = c.get(); c.set(k + 1); k });
+        LOG.with(|l| l.borrow_mut().push((x.0, y.0, target.shape().to_vec())));
+        if FAIL_AT.with(|f| f.get()) == Some(k) { return Err(InterpolateError::OutOfBounds(format!("injected-{k}"))); }
+        for (l, t) in target.iter_mut().enumerate() { *t = x * y + konst_frac(l as i128, 1); }
+        Ok(())
+    }
+}
+fn reset_logs() { LOG.with(|l| l.borrow_mut().clear()); CALLS.with(|c| c.set(0)); FAIL_AT.with(|f| f.set(None)); FAIL_BUILD.with(|f| f.set(false)); BUILD_LOG.with(|l| l.borrow_mut().clear()); }
+
+/// layout variants of an array with identical logical contents: C order, F order, every-2nd slice of a
+/// larger array, reversed last axis (stored reversed, viewed reversed back)
+fn variants<D: Dimension>(a: &Array<Sym, D>) -> Vec<(&'static str, Array<Sym, D>, Option<Array<Sym, D>>)> {
+    // returns owned arrays; the strided / reversed variants are produced as views by the caller through `with_view`
+    let mut out = vec![("c-order", a.clone(), None)];
+    let mut f = Array::from_elem(a.raw_dim().f(), konst_frac(0, 1));
+    f.assign(a);
+    out.push(("f-order", f, None));
+    out
+}
+
+/// run `body` with a strided view (every 2nd element along every axis of a larger array) holding `a`'s contents
+fn strided_holder<D: Dimension>(a: &Array<Sym, D>, poison: Sym) -> Array<Sym, D> {
+    let mut big_dim = a.raw_dim();
+    for ax in 0..a.ndim() { big_dim[ax] = a.shape()[ax] * 2 + 1; }
+    let mut big = Array::from_elem(big_dim, poison);
+    {
+        let mut v = big.view_mut();
+        for ax in 0..a.ndim() { v.slice_axis_inplace(Axis(ax), Slice::new(1, None, 2)); }
+        // v now has shape >= a.shape() (len*2+1 -> starting at 1 step 2 => len)
+        v.assign(a);
+    }
+    big
+}
+fn strided_view_mut<'a, D: Dimension>(big: &'a mut Array<Sym, D>) -> ArrayViewMut<'a, Sym, D> {
+    let mut v = big.view_mut();
+    for ax in 0..v.ndim() { v.slice_axis_inplace(Axis(ax), Slice::new(1, None, 2)); }
+    v
+}
+fn reversed_holder<D: Dimension>(a: &Array<Sym, D>) -> Array<Sym, D> {
+    let mut r = a.clone();
+    for ax in 0..a.ndim() { r.invert_axis(Axis(ax)); }
+    // r is a reversed VIEW-like owned array (negative strides) with reversed logical contents; make it standard, then invert again:
+    let mut std = Array::from_elem(a.raw_dim(), konst_frac(0, 1));
+    std.assign(&r);                 // std (standard layout) holds the reversed contents
+    for ax in 0..a.ndim() { std.invert_axis(Axis(ax)); } // logical contents == a, strides negative
+    std
+}
+
+macro_rules! entry1d_case {
+    ($fname:ident, $D:ty, $Dq:ty, $B:ty) => {
+        pub fn $fname<SB>(tag: &str, dshape: &[usize], qshape: &[usize], mk_strat: &dyn Fn() -> SB, builtin: bool, checks: &mut Vec<Check>)
+        where SB: Interp1DStrategyBuilder<OwnedRepr<Sym>, OwnedRepr<Sym>, $D>,
+        {
+            let n = dshape[0];
+            let x = axis("x", n, 2);
+            let (x0, xn) = (shadow(x[0]), shadow(x[n - 1]));
+            let data: Array<Sym, $D> = sym_array("d", dshape, -2.0, 3.0).into_dimensionality::<$D>().unwrap();
+            let q: Array<Sym, $Dq> = sym_array("q", qshape, x0 + 0.01, xn - 0.01).into_dimensionality::<$Dq>().unwrap();
+            let interp = match Interp1DBuilder::new(data.clone()).x(x.clone()).strategy(mk_strat()).build() {
+                Ok(i) => i, Err(e) => { ck(checks, format!("{tag}:build"), false, format!("{e}")); return; }
+            };
+            let mut want_shape: Vec<usize> = qshape.to_vec();
+            want_shape.extend_from_slice(&dshape[1..]);
+            let trailing: Vec<usize> = dshape[1..].to_vec();
+            let lanes: usize = trailing.iter().product();
+            // ---- allocating batch call
+            reset_logs();
+            let r_arr = match interp.interp_array(&q) { Ok(r) => r, Err(e) => { ck(checks, format!("C09:{tag}:interp_array"), false, format!("{e}")); return; } };
+            ck(checks, format!("C09:{tag}:result-shape"), r_arr.shape() == &want_shape[..], format!("got {:?} want {:?}", r_arr.shape(), want_shape));
+            let log_batch: Vec<(u32, u32, Vec<usize>)> = LOG.with(|l| l.borrow().clone());
+            // ---- element-wise agreement with the single-point entry points
+            let flat_arr = ids(&r_arr);
+            let mut ok_single = true; let mut ok_into = true; let mut ok_scalar = true; let mut detail = String::new();
+            for (k, qv) in q.iter().enumerate() {
+                let single = interp.interp(*qv).unwrap();
+                let s_ids = ids(&single);
+                if s_ids[..] != flat_arr[k * lanes..(k + 1) * lanes] { ok_single = false; detail = format!("query element {k}"); }
+                ok_single &= single.shape() == &trailing[..];
+                let mut buf = Array::from_elem(single.raw_dim(), konst_frac(7, 1));
+                interp.interp_into(*qv, buf.view_mut()).unwrap();
+                if ids(&buf) != s_ids { ok_into = false; }
+            }
+            ck(checks, format!("C09:{tag}:array-eq-single"), ok_single, detail);
+            ck(checks, format!("C09:{tag}:interp_into-eq-interp"), ok_into, String::new());
+            let _ = &mut ok_scalar;
+            // ---- *_into writes exactly what the allocating variant returns; memory outside the window untouched (C14)
+            let poison = var("POISON", 12345.0);
+            let want_dim = r_arr.raw_dim();
+            {
+                let mut buf: Array<Sym, $B> = Array::from_elem(want_dim.clone(), poison);
+                let r = interp.interp_array_into(&q, buf.view_mut());
+                ck(checks, format!("C09:{tag}:array_into-eq-alloc"), r.is_ok() && ids(&buf) == flat_arr, String::new());
+                ck(checks, format!("C14:{tag}:every-element-overwritten"), !ids(&buf).contains(&poison.0) || flat_arr.is_empty(), String::new());
+            }
+            if r_arr.ndim() > 0 && !flat_arr.is_empty() {
+                // window (every 2nd element) into a larger poisoned array — also a non-contiguous buffer (C13)
+                let mut big = strided_holder(&Array::from_elem(want_dim.clone(), konst_frac(0, 1)), poison);
+                let total_big = big.len();
+                let r = catch_unwind(AssertUnwindSafe(|| interp.interp_array_into(&q, strided_view_mut(&mut big))));
+                let okr = matches!(r, Ok(Ok(())));
+                let got = ids_v(&strided_view_mut(&mut big));
+                ck(checks, format!("C13:{tag}:strided-buffer-accepted"), okr && got == flat_arr, format!("ok={okr}"));
+                let poison_left = big.iter().filter(|s| s.0 == poison.0).count();
+                ck(checks, format!("C14:{tag}:outside-window-untouched"), !okr || poison_left == total_big - flat_arr.len(), format!("{poison_left} of {}", total_big - flat_arr.len()));
+                // F-order buffer
+                let mut fbuf: Array<Sym, $B> = Array::from_elem(want_dim.clone().f(), poison);
+                let r = catch_unwind(AssertUnwindSafe(|| interp.interp_array_into(&q, fbuf.view_mut())));
+                let okr = matches!(r, Ok(Ok(())));
+                ck(checks, format!("C13:{tag}:f-order-buffer-accepted"), okr && ids(&fbuf) == flat_arr, format!("ok={okr}"));
+                // reversed-stride buffer
+                let mut rbuf = reversed_holder(&Array::from_elem(want_dim.clone(), poison));
+                let r = catch_unwind(AssertUnwindSafe(|| interp.interp_array_into(&q, rbuf.view_mut())));
+                let okr = matches!(r, Ok(Ok(())));
+                ck(checks, format!("C13:{tag}:reversed-buffer-accepted"), okr && ids(&rbuf) == flat_arr, format!("ok={okr}"));
+            }
+            // ---- query layouts (C13)
+            if q.ndim() > 0 && q.len() > 0 {
+                for (nm, qv, _) in variants(&q) {
+                    let r = catch_unwind(AssertUnwindSafe(|| interp.interp_array(&qv)));
+                    let okr = matches!(&r, Ok(Ok(a)) if ids(a) == flat_arr);
+                    ck(checks, format!("C13:{tag}:query-{nm}"), okr, String::new());
+                }
+                let qr = reversed_holder(&q);
+                let r = catch_unwind(AssertUnwindSafe(|| interp.interp_array(&qr)));
+                ck(checks, format!("C13:{tag}:query-reversed-strides"), matches!(&r, Ok(Ok(a)) if ids(a) == flat_arr), String::new());
+                let mut qbig = strided_holder(&q, poison);
+                let r = catch_unwind(AssertUnwindSafe(|| { let v = strided_view_mut(&mut qbig); interp.interp_array(&v) }));
+                ck(checks, format!("C13:{tag}:query-strided-view"), matches!(&r, Ok(Ok(a)) if ids(a) == flat_arr), String::new());
+            }
+            // ---- wrongly shaped buffers never produce Ok (C14); built-in strategies (a custom strategy on the Ix1 fast path is itself responsible)
+            if r_arr.ndim() > 0 && builtin {
+                let mut shapes: Vec<(String, Vec<usize>)> = Vec::new();
+                for ax in 0..want_shape.len() {
+                    let mut s = want_shape.clone(); s[ax] += 1; shapes.push((format!("axis{ax}+1"), s));
+                    if want_shape[ax] > 0 { let mut s = want_shape.clone(); s[ax] -= 1; shapes.push((format!("axis{ax}-1"), s)); }
+                }
+                for a in 0..want_shape.len() { for b in a + 1..want_shape.len() {
+                    if want_shape[a] != want_shape[b] { let mut s = want_shape.clone(); s.swap(a, b); shapes.push((format!("swap{a}{b}"), s)); }
+                } }
+                for (nm, s) in shapes {
+                    if let Ok(mut buf) = ArrayD::from_elem(IxDyn(&s), poison).into_dimensionality::<$B>() {
+                        let r = catch_unwind(AssertUnwindSafe(|| interp.interp_array_into(&q, buf.view_mut())));
+                        let returned_ok = matches!(r, Ok(Ok(())));
+                        ck(checks, format!("C14:{tag}:reject[{nm}]"), !returned_ok || q.len() == 0 && false, format!("shape {:?} for required {:?} -> {}", s, want_shape, if returned_ok { "Ok" } else { "rejected" }));
+                    }
+                }
+            }
+            // ---- custom strategy sees the unmodified queries in logical order and correctly shaped targets (C18)
+            if !builtin {
+                let qids: Vec<u32> = q.iter().map(|s| s.0).collect();
+                let seen: Vec<u32> = log_batch.iter().map(|e| e.0).collect();
+                ck(checks, format!("C18:{tag}:queries-unmodified-in-order"), seen == qids, format!("{} calls for {} queries", seen.len(), qids.len()));
+                ck(checks, format!("C18:{tag}:target-shape"), log_batch.iter().all(|e| e.2 == trailing), String::new());
+                // failure injected at every call index reaches the caller unchanged; earlier elements are not an excuse to continue
+                for k in 0..q.len() {
+                    reset_logs();
+                    FAIL_AT.with(|f| f.set(Some(k)));
+                    let r = interp.interp_array(&q);
+                    let calls = CALLS.with(|c| c.get());
+                    let okr = matches!(&r, Err(InterpolateError::OutOfBounds(m)) if m == &format!("injected-{k}"));
+                    ck(checks, format!("C18:{tag}:error-passthrough[call={k}]"), okr && calls == k + 1, format!("calls={calls}"));
+                }
+                reset_logs();
+                if let Some(qv) = q.iter().next() {
+                    FAIL_AT.with(|f| f.set(Some(0)));
+                    let r = interp.interp(*qv);
+                    ck(checks, format!("C18:{tag}:error-passthrough[interp]"), matches!(&r, Err(InterpolateError::OutOfBounds(m)) if m == "injected-0"), String::new());
+                    reset_logs();
+                }
+            }
+            // ---- an out-of-range element at any position fails the batch as a whole (C05)
+            if builtin && !tag.contains("extrap") {
+                for k in 0..q.len() {
+                    let mut q2 = q.clone();
+                    let bad = if k % 2 == 0 { var("qbad_hi", xn + 1.0) } else { var("qbad_lo", x0 - 1.0) };
+                    *q2.iter_mut().nth(k).unwrap() = bad;
+                    let r = interp.interp_array(&q2);
+                    ck(checks, format!("C05:{tag}:batch-error[pos={k}]"), matches!(r, Err(InterpolateError::OutOfBounds(_))), String::new());
+                }
+                let mut q3 = q.clone();
+                if let Some(e) = q3.iter_mut().next() { *e = var("qnan", f64::NAN); let r = interp.interp_array(&q3); ck(checks, format!("C05:{tag}:batch-error[NaN]"), r.is_err(), String::new()); }
+            }
+            if builtin {
+                // answers do not depend on history (C17): replay in reverse order, after failed and rejected calls
+                let _ = interp.interp(var("qbad_hi", xn + 1.0));
+                let mut rev_ok = true;
+                let qv: Vec<Sym> = q.iter().copied().collect();
+                for (k, e) in qv.iter().enumerate().rev() {
+                    let s = interp.interp(*e).unwrap();
+                    rev_ok &= ids(&s)[..] == flat_arr[k * lanes..(k + 1) * lanes];
+                }
+                let again = interp.interp_array(&q).unwrap();
+                ck(checks, format!("C17:{tag}:history-independent"), rev_ok && ids(&again) == flat_arr, String::new());
+            }
+        }
+    };
+}
+
+entry1d_case!(e1_d1_q1, Ix1, Ix1, Ix1);
+entry1d_case!(e1_d2_q1, Ix2, Ix1, Ix2);
+entry1d_case!(e1_d3_q1, Ix3, Ix1, Ix3);
+entry1d_case!(e1_d4_q1, Ix4, Ix1, Ix4);
+entry1d_case!(e1_d1_q0, Ix1, Ix0, Ix0);
+entry1d_case!(e1_d2_q0, Ix2, Ix0, Ix1);
+entry1d_case!(e1_d1_q2, Ix1, Ix2, Ix2);
+entry1d_case!(e1_d2_q2, Ix2, Ix2, Ix3);
+entry1d_case!(e1_d3_q2, Ix3, Ix2, Ix4);
+entry1d_case!(e1_d2_q3, Ix2, Ix3, Ix4);
+entry1d_case!(e1_d1_q3, Ix1, Ix3, Ix3);
+entry1d_case!(e1_d4_q4, Ix4, Ix4, IxDyn);
+entry1d_case!(e1_dd_q1, IxDyn, Ix1, IxDyn);
+entry1d_case!(e1_dd_q2, IxDyn, Ix2, IxDyn);
+entry1d_case!(e1_dd_qd, IxDyn, IxDyn, IxDyn);
+entry1d_case!(e1_d1_qd, Ix1, IxDyn, IxDyn);
+entry1d_case!(e1_d2_qd, Ix2, IxDyn, IxDyn);
+entry1d_case!(e1_d3_qd, Ix3, IxDyn, IxDyn);
+
+fn shape_arg(args: &[String], key: &str) -> Vec<usize> {
+    for a in args { if let Some(v) = a.strip_prefix(&format!("{key}=")) { return v.split('x').filter(|s| !s.is_empty()).map(|s| s.parse().unwrap()).collect(); } }
+    vec![]
+}
+fn str_arg<'a>(args: &'a [String], key: &str, d: &'a str) -> &'a str {
+    for a in args { if let Some(v) = a.strip_prefix(&format!("{key}=")) { return v; } }
+    d
+}
+
+macro_rules! run_strats {
+    ($f:ident, $D:ty, $tag:expr, $ds:expr, $qs:expr, $strat:expr, $checks:expr) => {
+        match $strat {
+            "linear" => $f($tag, $ds, $qs, &|| Linear::new(), true, $checks),
+            "linear-extrap" => $f($tag, $ds, $qs, &|| Linear::new().extrapolate(true), true, $checks),
+            "spline" => $f($tag, $ds, $qs, &|| CubicSpline::<Sym, $D>::new(), true, $checks),
+            "record" => $f($tag, $ds, $qs, &|| Rec::<2>, false, $checks),
+            other => panic!("unknown strategy {other}"),
+        }
+    };
+}
+
+pub fn dispatch(cmd: &str, args: &[String], line: &str) {
+    reset();
+    reset_logs();
+    let mut checks: Vec<Check> = Vec::new();
+    let result = catch_unwind(AssertUnwindSafe(|| {
+        match cmd {
+            "entry1d" => {
+                let ds = shape_arg(args, "data");
+                let qs = shape_arg(args, "q");
+                let dd = str_arg(args, "ddyn", "0") == "1";
+                let qd = str_arg(args, "qdyn", "0") == "1";
+                let strat = str_arg(args, "strat", "linear");
+                let tag = format!("1d[data={}{},q={}{},{}]", str_arg(args, "data", ""), if dd { "dyn" } else { "" }, str_arg(args, "q", "()"), if qd { "dyn" } else { "" }, strat);
+                let tag = tag.as_str();
+                match (dd, ds.len(), qd, qs.len()) {
+                    (false, 1, false, 1) => run_strats!(e1_d1_q1, Ix1, tag, &ds, &qs, strat, &mut checks),
+                    (false, 2, false, 1) => run_strats!(e1_d2_q1, Ix2, tag, &ds, &qs, strat, &mut checks),
+                    (false, 3, false, 1) => run_strats!(e1_d3_q1, Ix3, tag, &ds, &qs, strat, &mut checks),
+                    (false, 4, false, 1) => run_strats!(e1_d4_q1, Ix4, tag, &ds, &qs, strat, &mut checks),
+                    (false, 1, false, 0) => run_strats!(e1_d1_q0, Ix1, tag, &ds, &qs, strat, &mut checks),
+                    (false, 2, false, 0) => run_strats!(e1_d2_q0, Ix2, tag, &ds, &qs, strat, &mut checks),
+                    (false, 1, false, 2) => run_strats!(e1_d1_q2, Ix1, tag, &ds, &qs, strat, &mut checks),
+                    (false, 2, false, 2) => run_strats!(e1_d2_q2, Ix2, tag, &ds, &qs, strat, &mut checks),
+                    (false, 3, false, 2) => run_strats!(e1_d3_q2, Ix3, tag, &ds, &qs, strat, &mut checks),
+                    (false, 2, false, 3) => run_strats!(e1_d2_q3, Ix2, tag, &ds, &qs, strat, &mut checks),
+                    (false, 1, false, 3) => run_strats!(e1_d1_q3, Ix1, tag, &ds, &qs, strat, &mut checks),
+                    (false, 4, false, 4) => run_strats!(e1_d4_q4, Ix4, tag, &ds, &qs, strat, &mut checks),
+                    (true, _, false, 1) => run_strats!(e1_dd_q1, IxDyn, tag, &ds, &qs, strat, &mut checks),
+                    (true, _, false, 2) => run_strats!(e1_dd_q2, IxDyn, tag, &ds, &qs, strat, &mut checks),
+                    (true, _, true, _) => run_strats!(e1_dd_qd, IxDyn, tag, &ds, &qs, strat, &mut checks),
+                    (false, 1, true, _) => run_strats!(e1_d1_qd, Ix1, tag, &ds, &qs, strat, &mut checks),
+                    (false, 2, true, _) => run_strats!(e1_d2_qd, Ix2, tag, &ds, &qs, strat, &mut checks),
+                    (false, 3, true, _) => run_strats!(e1_d3_qd, Ix3, tag, &ds, &qs, strat, &mut checks),
+                    _ => panic!("no monomorphic case for this rank combination"),
+                }
+            }
+            "fastpath" => crate::entry2::fastpath(args, &mut checks),
+            "entry2d" => crate::entry2::entry2d(args, &mut checks),
+            "builder" => crate::entry2::builder_table(args, &mut checks),
+            "lanes" => crate::entry2::lane_alone(args, &mut checks),
+            other => panic!("unknown scenario command {other}"),
+        }
+    }));
+    let res = if result.is_ok() { "ok" } else { "panic" };
+    emit(line, res, &checks);
+}
+
+#[allow(dead_code)]
+fn _u(_: Array1<Sym>, _: Ix5, _: Bilinear) { let _ = Interp2DBuilder::new(ndarray::Array2::<f64>::zeros((2, 2))); }
